@@ -467,6 +467,40 @@ type freeDaemon struct {
 	mu   sync.Mutex
 	pins map[string]api.IPFSPinStatus
 	rng  *rand.Rand
+	// calls in flight per CID: the operation table allows one live (uncancelled) operation per CID,
+	// so two uncancelled calls for the same CID at the same time mean the table was torn
+	active map[string][]context.Context
+	torn   []string
+}
+
+func (d *freeDaemon) enter(ctx context.Context, c string, kind string) {
+	d.mu.Lock()
+	defer d.mu.Unlock()
+	if d.active == nil {
+		d.active = map[string][]context.Context{}
+	}
+	live := 0
+	for _, x := range d.active[c] {
+		if x.Err() == nil {
+			live++
+		}
+	}
+	if live > 0 && ctx.Err() == nil && len(d.torn) < 5 {
+		d.torn = append(d.torn, fmt.Sprintf("%s call for a CID started while %d other uncancelled call(s) for the same CID were in flight", kind, live))
+	}
+	d.active[c] = append(d.active[c], ctx)
+}
+
+func (d *freeDaemon) leave(ctx context.Context, c string) {
+	d.mu.Lock()
+	defer d.mu.Unlock()
+	l := d.active[c]
+	for i, x := range l {
+		if x == ctx {
+			d.active[c] = append(l[:i:i], l[i+1:]...)
+			break
+		}
+	}
 }
 
 func (d *freeDaemon) jitter() {
@@ -476,6 +510,8 @@ func (d *freeDaemon) jitter() {
 	time.Sleep(time.Duration(n) * time.Microsecond)
 }
 func (d *freeDaemon) Pin(ctx context.Context, in *api.Pin, out *struct{}) error {
+	d.enter(ctx, in.Cid.String(), "pin")
+	defer d.leave(ctx, in.Cid.String())
 	d.jitter()
 	if ctx.Err() != nil {
 		return ctx.Err()
@@ -496,6 +532,8 @@ func (d *freeDaemon) Pin(ctx context.Context, in *api.Pin, out *struct{}) error 
 	return nil
 }
 func (d *freeDaemon) Unpin(ctx context.Context, in *api.Pin, out *struct{}) error {
+	d.enter(ctx, in.Cid.String(), "unpin")
+	defer d.leave(ctx, in.Cid.String())
 	d.jitter()
 	if ctx.Err() != nil {
 		return ctx.Err()
@@ -588,15 +626,17 @@ func stressTracker(res *hx.Result, out *recorder, seed int64, withShutdown bool)
 					if rng.Intn(4) == 0 {
 						p.Allocations = []peer.ID{other}
 					}
+					// consensus applies entries one at a time but hands each to the tracker on its own
+					// goroutine (raft LogOp.ApplyTo): tracker calls for one CID may overlap
 					stMu.Lock()
 					st.Add(ctx, p)
-					tr.Track(ctx, p)
 					stMu.Unlock()
+					tr.Track(ctx, p)
 				case 2:
 					stMu.Lock()
 					st.Rm(ctx, c)
-					tr.Untrack(ctx, c)
 					stMu.Unlock()
+					tr.Untrack(ctx, c)
 				case 3:
 					pi := tr.Status(ctx, c)
 					if pi == nil || !validStatus[pi.Status.String()] {
@@ -640,6 +680,11 @@ func stressTracker(res *hx.Result, out *recorder, seed int64, withShutdown bool)
 	if !withShutdown {
 		tr.Shutdown(ctx)
 	}
+	d.mu.Lock()
+	for _, tn := range d.torn {
+		note("operation table torn: " + tn)
+	}
+	d.mu.Unlock()
 	out.put(x)
 	res.Count(900)
 	res.Case(map[string]interface{}{"kind": "tracker-free", "shutdown": withShutdown, "seed": seed}, true)
@@ -720,10 +765,16 @@ func stressMetrics(res *hx.Result, out *recorder, seed int64) {
 			}
 		}
 	}()
-	wg.Wait()
-	mon.Shutdown(ctx)
+	fin := make(chan struct{})
+	go func() { wg.Wait(); close(fin) }()
+	select {
+	case <-fin:
+		mon.Shutdown(ctx)
+		x.Result = "done"
+	case <-time.After(60 * time.Second):
+		x.Panic = "deadlock: monitor callers (LogMetric / LatestMetrics / MetricNames) did not finish in 60s"
+	}
 	close(stop)
-	x.Result = "done"
 	out.put(x)
 	res.Count(1600)
 	res.Case(map[string]interface{}{"kind": "metrics-free", "seed": seed}, true)
